@@ -1,0 +1,18 @@
+//go:build verif
+
+package db
+
+import "math/rand"
+
+// NewDBForVerif wraps a caller-supplied DBI into a *DB. Verification builds only.
+func NewDBForVerif(dbi DBI) *DB { return &DB{dbi: dbi} }
+
+// SetRandSourceForVerif replaces the package's random source (scripted draws).
+func SetRandSourceForVerif(src rand.Source64) { localRand = rand.New(src) }
+
+// RefCountForVerif reports the reference count and destroyable flag of a DB.
+func (f *DB) RefCountForVerif() (uint64, bool) {
+	f.l.Lock()
+	defer f.l.Unlock()
+	return f.refCount, f.destroyable
+}
